@@ -791,6 +791,72 @@ def c14_enc(case):
         return bad("C14:split", "split_selfies(%r) differs from the independent scan" % out)
     return ok()
 
+
+# ---------------------------------------------------------------------------
+# C15
+
+
+def c15_encoding(case):
+    stoi = dict(case["vocab"])
+    itos = {i: s_ for s_, i in stoi.items()}
+    s = case["selfies"]
+    items = _tok(s)
+    pad, et = case["pad"], case["enc_type"]
+    npad = max(0, pad - len(items))
+    must_raise = et not in ("label", "one_hot", "both") or (npad > 0 and "[nop]" not in stoi)
+    try:
+        r = sf.selfies_to_encoding(s, stoi, pad_to_len=pad, enc_type=et)
+    except (KeyError, ValueError) as ex:
+        if must_raise:
+            return ok()
+        return bad("C15:raises", "selfies_to_encoding(%r, %r, pad_to_len=%r, enc_type=%r) raised %r" % (s, stoi, pad, et, ex))
+    if must_raise:
+        return bad("C15:no-error", "selfies_to_encoding(%r, %r, pad_to_len=%r, enc_type=%r) returned %r instead of raising" % (s, stoi, pad, et, r))
+    want = [stoi[x] for x in items] + [stoi["[nop]"]] * npad
+    lab = r if et == "label" else (r[0] if et == "both" else None)
+    hot = r if et == "one_hot" else (r[1] if et == "both" else None)
+    if lab is not None and list(lab) != want:
+        return bad("C15:label", "label encoding of %r (pad %r, vocab %r) = %r, expected %r" % (s, pad, stoi, lab, want))
+    if hot is not None:
+        wh = [[1 if j == k else 0 for j in range(len(stoi))] for k in want]
+        if [list(x) for x in hot] != wh:
+            return bad("C15:one-hot", "one-hot encoding of %r (pad %r, vocab %r) = %r, expected %r" % (s, pad, stoi, hot, wh))
+    expect = s + "[nop]" * npad
+    if lab is not None and sf.encoding_to_selfies(lab, itos, enc_type="label") != expect:
+        return bad("C15:decode-label", "encoding_to_selfies(label) of %r does not give %r" % (lab, expect))
+    if hot is not None and sf.encoding_to_selfies(hot, itos, enc_type="one_hot") != expect:
+        return bad("C15:decode-one-hot", "encoding_to_selfies(one_hot) of %r does not give %r" % (hot, expect))
+    return ok()
+
+
+def c15_batch(case):
+    V = ["[nop]", "[C]", "[=O]", ".", "[Cl]"]
+    stoi = {s_: i for i, s_ in enumerate(V)}
+    itos = {i: s_ for s_, i in stoi.items()}
+    batch, pad = case["batch"], case["pad"]
+    try:
+        flat = sf.batch_selfies_to_flat_hot(batch, stoi, pad)
+    except Exception as ex:  # noqa
+        return bad("C15:batch-raises", "batch_selfies_to_flat_hot(%r, pad=%r) raised %r" % (batch, pad, ex))
+    want = []
+    exp = []
+    for s in batch:
+        it = _tok(s)
+        idx = [stoi[x] for x in it] + [stoi["[nop]"]] * max(0, pad - len(it))
+        want.append([1 if j == k else 0 for k in idx for j in range(len(V))])
+        exp.append(s + "[nop]" * max(0, pad - len(it)))
+    if [list(x) for x in flat] != want:
+        return bad("C15:batch", "batch_selfies_to_flat_hot(%r, pad=%r) differs from the element-wise encoding" % (batch, pad))
+    if sf.batch_flat_hot_to_selfies(flat, itos) != exp:
+        return bad("C15:batch-inverse", "batch_flat_hot_to_selfies does not invert batch_selfies_to_flat_hot on %r" % (batch,))
+    if want[0]:
+        try:
+            sf.batch_flat_hot_to_selfies([want[0][:-1]], itos)
+            return bad("C15:ragged", "a flat vector whose length is not a multiple of the vocabulary size was accepted")
+        except ValueError:
+            pass
+    return ok()
+
 # ---------------------------------------------------------------------------
 
 KINDS = {
@@ -810,6 +876,8 @@ KINDS = {
     "pure_history": c11_history,
     "tok_utils": c14_utils,
     "enc_wellformed": c14_enc,
+    "encoding": c15_encoding,
+    "batch_encoding": c15_batch,
     "state_fn": lemma_state_fn,
     "ring_step": lemma_ring_step,
 }
